@@ -1,14 +1,16 @@
 #!/bin/bash
-# usage: tools_seed_eval2.sh <worktree-with-change> <outdir-with-patch/demo/meta> <name> <check ids...>
-# Confirms a seeded change in its own scratch worktree (patch = worktree diff, applies to clean HEAD, demo passes on
-# /repo and fails on the worktree, test suite unchanged) and runs the given checks against it WITHOUT touching /repo:
-# a scratch copy of /verif (rsync of the committed+working state incl. lean/.lake) is run with VERIF_REPO=<worktree>.
+# usage: tools_seed_eval2.sh <dir-with-patch.diff/demo.py/meta.json> <name> <check ids...>
+# Confirms a seeded change in a FRESH scratch worktree of /repo's current HEAD (patch applies, demo passes on /repo and
+# fails with the change, test suite unchanged) and runs the given checks against it WITHOUT touching /repo: a scratch copy
+# of /verif (rsync incl. lean/.lake) is run with VERIF_REPO=<worktree>.  Worktree and copy are removed afterwards.
 # (tools_seed_eval.sh does the same by applying the patch to /repo itself; use that one when nothing else is running.)
 set -u
-WT=$1; SD=$2; NAME=$3; shift 3
+SD=$1; NAME=$2; shift 2
 cd /verif
-git -C /repo apply --check "$SD/patch.diff" || { echo "patch does not apply to clean HEAD"; exit 2; }
-if ! diff -q <(git -C "$WT" diff) "$SD/patch.diff" >/dev/null; then echo "WARNING: worktree diff differs from patch.diff"; git -C "$WT" diff --stat; fi
+WT=/tmp/seedwt/eval_$NAME
+git -C /repo worktree remove --force $WT >/dev/null 2>&1
+git -C /repo worktree add --detach $WT HEAD >/dev/null 2>&1 || { echo "cannot create worktree"; exit 2; }
+git -C $WT apply "$SD/patch.diff" || { echo "patch does not apply to current HEAD"; git -C /repo worktree remove --force $WT; exit 2; }
 D=$(mktemp -d /tmp/seeddemo.XXXX); cp "$SD/demo.py" $D/demo.py
 echo "== demo on unmodified /repo (want 0)"; (cd $D && PYTHONPATH=/repo timeout 900 /venv/bin/python $D/demo.py >/dev/null 2>&1; echo "exit $?")
 echo "== demo with change (want 1)"; (cd $D && PYTHONPATH=$WT timeout 900 /venv/bin/python $D/demo.py 2>&1 | tail -2; echo "exit ${PIPESTATUS[0]}")
@@ -22,4 +24,5 @@ for c in "$@"; do
   (cd $EV && VERIF_REPO=$WT timeout 1800 /venv/bin/python check.py $c --tier quick 2>&1 | grep -E "^(VIOLATION|BROKEN|C[0-9]+ tier)" | cut -c1-300) | tee -a seeded/$NAME/check_results.txt
 done
 rm -rf $D $EV
+git -C /repo worktree remove --force $WT
 cp "$SD/patch.diff" "$SD/demo.py" "$SD/meta.json" seeded/$NAME/ 2>/dev/null
